@@ -172,11 +172,18 @@ func stress(spec string) string {
 									report("mixup:signer-panic:" + hx.HexS(fmt.Sprint(r)))
 								}
 							}()
-							sg := ss[g.Intn(len(ss))]
-							data := []byte(fmt.Sprintf("signer-g%d-op%d", gi, i))
-							sig, err := sg.Sign(rand.Reader, data)
-							if err == nil && sg.PublicKey().Verify(data, sig) != nil {
-								report("mixup:signer")
+							for si, sg := range ss {
+								data := []byte(fmt.Sprintf("signer-g%d-op%d-%d", gi, i, si))
+								sig, err := sg.Sign(rand.Reader, data)
+								if err == nil && sg.PublicKey().Verify(data, sig) != nil {
+									report("mixup:signer")
+								}
+								// a refusal is in order (the certificate may have been purged meanwhile);
+								// a reply of a kind no sign request gets is another request's reply
+								if err != nil && !strings.Contains(err.Error(), "agent: failure") && !strings.Contains(err.Error(), "not found") &&
+									!strings.Contains(err.Error(), "failed to sign") {
+									report("mixup:signer-reply:" + hx.HexS(err.Error()))
+								}
 							}
 						}()
 					}
@@ -236,6 +243,59 @@ func stress(spec string) string {
 		}(gi)
 	}
 	wg.Wait()
+	// second phase: signers obtained once — for the base key and for a hardware certificate — are
+	// used by half of the goroutines while the other half forwards raw requests: every signature
+	// must verify over the signer's own data and every forwarded reply must carry its own payload
+	{
+		cl0, cc0 := connect(y)
+		cl0.AddHardCert(valid(), "yk")
+		cc0.Close()
+		ss, err := y.Signers()
+		if err != nil {
+			report("signers-error")
+		}
+		var wg2 sync.WaitGroup
+		for gi := 0; gi < ng && gi < 8; gi++ {
+			wg2.Add(1)
+			go func(gi int) {
+				defer wg2.Done()
+				defer func() {
+					if r := recover(); r != nil {
+						report("mixup:signer-panic:" + hx.HexS(fmt.Sprint(r)))
+					}
+				}()
+				for i := 0; i < 3*nops; i++ {
+					if gi%2 == 0 {
+						for si, sg := range ss {
+							data := []byte(fmt.Sprintf("p2-g%d-op%d-%d", gi, i, si))
+							sig, err := sg.Sign(rand.Reader, data)
+							if err != nil {
+								report("mixup:signer-reply:" + hx.HexS(err.Error()))
+							} else if sg.PublicKey().Verify(data, sig) != nil {
+								report("mixup:signer")
+							}
+						}
+					} else {
+						payload := []byte(fmt.Sprintf("p2fwd-g%d-op%d", gi, i))
+						req := append([]byte{27}, sshStr([]byte("echo@verif"))...)
+						resp, err := y.Forward(append(req, payload...))
+						if err != nil {
+							report("forward-error")
+						} else if !bytes.Contains(resp, payload) {
+							report("mixup:forward")
+						}
+					}
+				}
+			}(gi)
+		}
+		done2 := make(chan struct{})
+		go func() { wg2.Wait(); close(done2) }()
+		select {
+		case <-done2:
+		case <-time.After(30 * time.Second):
+			report("hang:signers-with-forward")
+		}
+	}
 	// final state = the sequential effect: the base key plus exactly the keys still added
 	keys, err := ring.List()
 	if err != nil {
